@@ -222,6 +222,8 @@ def str_to_dpid (s):
     b = 0
   if len(s) == 2:
     b = int(s[1])
+  if b < 0 or b > 0xffFF:
+    raise ValueError("DPID is not a 64 bit value")
   return a | (b << 48)
 strToDPID = str_to_dpid
 
